@@ -234,6 +234,21 @@ CLAIMS["C03"] = (
     "Known finding: collected extras mirror nested nodes with empty mappings under known keys (pinned by the suite).",
     "DESIGN.md section 5 C03", TECH)
 
+CLAIMS["C13"] = (
+    "Proof: the search for the source of a destination field - C13_first_matching_provider_decides (recipe order), "
+    "no_provider_means_by_name, param_beats_field_at_top_level / nested_fields_ignore_parameters, "
+    "rightmost_parameter_is_read, from_param_reaches_any_level, extra_source_field_is_ignored (for every recipe, an "
+    "unmentioned source field changes no linking); C13_every_destination_field_gets_one_value (the result is the "
+    "destination built field by field, in order); C13_constructor_call_binds_exactly (the destination's constructor call "
+    "is Ctor.arrange: every linked value reaches its own parameter once). Tied to the code per generated program: source "
+    "model, destination derived by renaming / dropping / adding / nesting fields, 0-2 extra parameters named like fields, "
+    "recipe of link / from_param / link_constant / link_function / allow_unlinked_optional; impl_converter on a stub with "
+    "that signature, run on generated objects and compared with the model's construction; signature preservation, source "
+    "unchanged, look-alike constants, recipe of one call not leaking into the next.",
+    "Trusted: Coq kernel, renderers; user coercers / linked functions are symbolic; coercion of non-model field types is "
+    "C14's, aliasing C20's, generated-code naming C19's subject; dataclass models (other kinds: C17).",
+    "DESIGN.md section 5 C13", TECH)
+
 NOT_YET = "check not built yet in this session (DESIGN.md section 10 build order); not claimed until its model, theorems and correspondence exist"
 
 
